@@ -28,6 +28,12 @@
 
 #include "client.c"	/* found through -I <snapshot>/src */
 
+#ifdef __SANITIZE_ADDRESS__
+#define NGUARD 0	/* the heap redzone is the guard */
+#else
+#define NGUARD GUARD
+#endif
+
 static jmp_buf bail;
 static int bail_code;
 
@@ -70,6 +76,8 @@ static int deliver(char *it)
 	sl = strchr(it, '/');
 	if (sl)
 		res = atoi(sl + 1);
+	if (strspn(it, "0123456789abcdefABCDEF") > 2 * sizeof(dgram))
+		return 0;	/* does not fit a UDP datagram */
 	n = (int)unhex(it, dgram);
 	if (mode >= 1 && n >= 2) {
 		/* chunkid is the id of the latest query (1000 before the first one) */
@@ -171,6 +179,33 @@ int handle_line(char *l)
 {
 	char *p = l, *save, *hd, *it, step[32];
 	int qtype, uid, lazy, denc, seed, arg, rv = 0, i, seedout = 0;
+	if (!strncmp(l, "N ", 2)) {
+		/* N outlen hex : dns_namedec(out, outlen, buf, buflen = number of bytes given).  out is a
+		   heap block of outlen + 1 bytes (the decoders document that they store a NUL behind the
+		   last byte: "*buf space should be at least 1 byte more than *buflen"); the ASan redzone /
+		   guard bytes follow directly */
+		char *q = l + 2, *out, *src;
+		int outlen = (int)strtol(q, &q, 10), n, r;
+		while (*q == ' ') q++;
+		n = (int)unhex(q, dgram);
+		out = malloc((size_t)outlen + 1 + NGUARD);
+		src = malloc((size_t)n + 1);
+		memset(out, 0x5a, (size_t)outlen + 1 + NGUARD);
+		memcpy(src, dgram, n);
+		src[n] = 0;
+		r = dns_namedec(out, outlen, src, n);
+		printf("%d ", r);
+		putsum((unsigned char *)out, r > 0 && r <= outlen ? r : 0);
+		for (i = 0; i < NGUARD; i++)
+			if ((unsigned char)out[outlen + 1 + i] != 0x5a)
+				break;
+		if (i < NGUARD || r > outlen)
+			printf(" GUARD-VIOLATED");
+		putchar('\n');
+		free(out);
+		free(src);
+		return 1;
+	}
 	if (strncmp(l, "H ", 2))
 		return 0;
 	hd = strtok_r(p + 2, ";", &save);
